@@ -21,6 +21,7 @@ CONFIG = {
     "C14": dict(gen=["Char"], drivers=["Char"]),
     "C15": dict(gen=["Char", "Units"], drivers=[]),
     "C16": dict(gen=["Char"], drivers=["Char"]),
+    "C18": dict(gen=["Char"], drivers=["Kernel", "Char"]),
     "C19": dict(gen=["Char", "Models"], drivers=["Char"]),
     "C17": dict(gen=["Char"], drivers=["Char"]),
     "C02": dict(gen=["Units"], drivers=["IsoState"]),
